@@ -807,3 +807,51 @@ func instrsWithLiterals(f *ssa.Function, fn func(ssa.Instruction)) {
 		an.Instrs(g, fn)
 	}
 }
+
+// foldConst: the constant value of v when it is a constant, a conversion of one, a single-store local holding one,
+// or a comparison / arithmetic of such (the shape an inlined helper's constant argument takes); nil otherwise.
+func foldConst(v ssa.Value, depth int) constant.Value {
+	if depth > 6 {
+		return nil
+	}
+	switch x := v.(type) {
+	case *ssa.Const:
+		return x.Value
+	case *ssa.Convert:
+		return foldConst(x.X, depth+1)
+	case *ssa.ChangeType:
+		return foldConst(x.X, depth+1)
+	case *ssa.UnOp:
+		if x.Op == token.MUL {
+			if r := an.ResolveCell(x); r != ssa.Value(x) {
+				return foldConst(r, depth+1)
+			}
+			return nil
+		}
+		if x.Op == token.NOT {
+			if k := foldConst(x.X, depth+1); k != nil && k.Kind() == constant.Bool {
+				return constant.MakeBool(!constant.BoolVal(k))
+			}
+		}
+	case *ssa.Phi:
+		var k constant.Value
+		for _, e := range x.Edges {
+			ke := foldConst(e, depth+1)
+			if ke == nil || (k != nil && !constant.Compare(k, token.EQL, ke)) {
+				return nil
+			}
+			k = ke
+		}
+		return k
+	case *ssa.BinOp:
+		a, b := foldConst(x.X, depth+1), foldConst(x.Y, depth+1)
+		if a == nil || b == nil || a.Kind() != b.Kind() {
+			return nil
+		}
+		switch x.Op {
+		case token.EQL, token.NEQ, token.LSS, token.LEQ, token.GTR, token.GEQ:
+			return constant.MakeBool(constant.Compare(a, x.Op, b))
+		}
+	}
+	return nil
+}
